@@ -817,6 +817,15 @@ def union_cfgs():
         lambda: Either(Either(Int, List(Int)), Str, Dict(Str, Int)),
         lambda s: type(s) is int or isinstance(s, (str, list, dict)),
         None, "i1", kind="Either-nested")
+    from traits.api import List as _List
+    cfg("Either(Either(List(Int),Int),Str)",
+        lambda: Either(Either(_List(Int), Int), Str),
+        lambda s: type(s) is int or isinstance(s, (str, list)),
+        None, "i1", kind="Either-nested")
+    cfg("Either(Str,Either(Int,List(Int)))",
+        lambda: Either(Str, Either(Int, _List(Int))),
+        lambda s: type(s) is int or isinstance(s, (str, list)),
+        None, "sa", kind="Either-nested")
     cfg("Union(None,Int)", lambda: Union(None, Int),
         lambda s: s is None or type(s) is int,
         lambda v: ("same", None) if v is None else CONFIGS["Int"].model(v),
